@@ -44,6 +44,10 @@ def ld(tag, payload):
     return key(tag, 2) + varint(len(payload)) + payload
 
 
+class UnknownKind(Exception):
+    pass
+
+
 class Gen:
     def __init__(self, schema, rng, hints=()):
         self.msgs = schema["messages"]
@@ -77,7 +81,7 @@ class Gen:
             return bytes(r.randrange(256) for _ in range(8))
         if kind in ("fixed32", "sfixed32", "float"):
             return bytes(r.randrange(256) for _ in range(4))
-        raise ValueError(kind)
+        raise UnknownKind(kind)
 
     def enc_scalar(self, tag, kind, v, always=False):
         """singular proto3 scalar: omitted when default unless `always` (repeated element / oneof member)"""
@@ -189,7 +193,13 @@ def run(per_type, seed, with_lean=True):
         for k in compiled:
             stats["types"] += 1
             for i in range(per_type):
-                b = g.message(k, 0) if i else b""
+                try:
+                    b = g.message(k, 0) if i else b""
+                except UnknownKind as e:
+                    divs.append({"kind": "prost-vs-extracted-schema", "type": k, "hex": "", "prost": None,
+                                 "what": "the extracted schema of %s has a field kind the wire model does not know (%s)" % (k, e),
+                                 "fields": schema["messages"][k]["fields"]})
+                    break
                 hx = b.hex()
                 r = h.call({"op": "proto", "fn": "roundtrip", "type": k, "hex": hx})
                 stats["evaluations"] += 1
